@@ -24,7 +24,52 @@ fn out_bool(r: Result<bool, cedar_policy_symcc::bitvec::BitVecError>) -> J {
     }
 }
 
+/// Verification conditions on a LITERAL symbolic environment vs the concrete authorizer (public APIs only, no solver).
+/// in: {schema, principal, action, resource, context (JSON text), entities (JSON text), policy1, policy2 (single-policy texts)}
+/// out: {concrete: {allow1, errors1, allow2, errors2}, holds: {never_errors, always_matches, never_matches, matches_*, always_allows, always_denies, implies, equivalent, disjoint}} (null = not constant)
+fn symcc_literal(req: &J) -> J {
+    use cedar_policy::{Authorizer, Context, Decision, Entities, EntityUid, PolicyId, PolicySet, Request, RequestEnv, Schema, ValidationMode, Validator};
+    use cedar_policy_symcc::{always_allows_asserts, always_denies_asserts, always_matches_asserts, disjoint_asserts, equivalent_asserts, implies_asserts, matches_disjoint_asserts, matches_equivalent_asserts,
+                             matches_implies_asserts, never_errors_asserts, never_matches_asserts, CompiledPolicy, CompiledPolicySet, Env, SymEnv, WellFormedAsserts};
+    let g = |k: &str| req[k].as_str().unwrap_or("").to_string();
+    let schema = match Schema::from_cedarschema_str(&g("schema")) { Ok(s) => s.0, Err(e) => return json!({"input_error": e.to_string()}) };
+    let (p, a, r) = match (EntityUid::from_str(&g("principal")), EntityUid::from_str(&g("action")), EntityUid::from_str(&g("resource"))) { (Ok(p), Ok(a), Ok(r)) => (p, a, r), _ => return json!({"input_error": "uids"}) };
+    let req_env = RequestEnv::new(p.type_name().clone(), a.clone(), r.type_name().clone());
+    let context = match Context::from_json_str(&g("context"), Some((&schema, &a))) { Ok(c) => c, Err(e) => return json!({"input_error": e.to_string()}) };
+    let request = match Request::new(p, a, r, context, Some(&schema)) { Ok(q) => q, Err(e) => return json!({"input_error": e.to_string()}) };
+    let entities = match Entities::from_json_str(&g("entities"), Some(&schema)) { Ok(e) => e, Err(e) => return json!({"input_error": e.to_string()}) };
+    let env = Env { request, entities };
+    let symenv = || SymEnv::from_concrete_env(&req_env, &schema, &env);
+    let pset = |src: &str| -> Result<PolicySet, String> {
+        let ps = PolicySet::from_str(src).map_err(|e| e.to_string())?;
+        let res = Validator::new(schema.clone()).validate(&ps, ValidationMode::Strict);
+        if !res.validation_passed() { return Err(format!("does not validate: {res}")); }
+        Ok(ps)
+    };
+    let (ps1, ps2) = match (pset(&g("policy1")), pset(&g("policy2"))) { (Ok(a), Ok(b)) => (a, b), (Err(e), _) | (_, Err(e)) => return json!({"input_error": e}) };
+    let concrete = |ps: &PolicySet| { let resp = Authorizer::new().is_authorized(&env.request, ps, &env.entities); let errs = resp.diagnostics().errors().count() > 0; (resp.decision() == Decision::Allow, errs) };
+    let ((allow1, errors1), (allow2, errors2)) = (concrete(&ps1), concrete(&ps2));
+    let holds = |asserts: &WellFormedAsserts<'_>| -> J {
+        let t: cedar_policy_symcc::term::Term = true.into();
+        let f: cedar_policy_symcc::term::Term = false.into();
+        if asserts.asserts().iter().any(|a| a != &t && a != &f) { return J::Null; }
+        json!(asserts.asserts().iter().any(|a| a == &f))
+    };
+    let one = |ps: &PolicySet| ps.policies().next().map(|p| p.new_id(PolicyId::new("p")));
+    let (pol1, pol2) = match (one(&ps1), one(&ps2)) { (Some(a), Some(b)) => (a, b), _ => return json!({"input_error": "one policy each"}) };
+    let se = |_: ()| symenv().map_err(|e| format!("{e:?}"));
+    let cp = |p: &cedar_policy::Policy| -> Result<CompiledPolicy, String> { CompiledPolicy::compile_with_custom_symenv(p, &req_env, &schema, se(())?).map_err(|e| format!("{e:?}")) };
+    let cs = |ps: &PolicySet| -> Result<CompiledPolicySet, String> { CompiledPolicySet::compile_with_custom_symenv(ps, &req_env, &schema, se(())?).map_err(|e| format!("{e:?}")) };
+    let (c1, c2, s1, s2) = match (cp(&pol1), cp(&pol2), cs(&ps1), cs(&ps2)) { (Ok(a), Ok(b), Ok(c), Ok(d)) => (a, b, c, d), (Err(e), ..) | (_, Err(e), ..) | (_, _, Err(e), _) | (_, _, _, Err(e)) => return json!({"compile_error": e}) };
+    json!({"concrete": {"allow1": allow1, "errors1": errors1, "allow2": allow2, "errors2": errors2, "permit1": pol1.effect() == cedar_policy::Effect::Permit, "permit2": pol2.effect() == cedar_policy::Effect::Permit},
+           "holds": {"never_errors": holds(&never_errors_asserts(&c1)), "always_matches": holds(&always_matches_asserts(&c1)), "never_matches": holds(&never_matches_asserts(&c1)),
+                     "matches_equivalent": holds(&matches_equivalent_asserts(&c1, &c2)), "matches_implies": holds(&matches_implies_asserts(&c1, &c2)), "matches_disjoint": holds(&matches_disjoint_asserts(&c1, &c2)),
+                     "always_allows": holds(&always_allows_asserts(&s1)), "always_denies": holds(&always_denies_asserts(&s1)), "implies": holds(&implies_asserts(&s1, &s2)),
+                     "equivalent": holds(&equivalent_asserts(&s1, &s2)), "disjoint": holds(&disjoint_asserts(&s1, &s2))}})
+}
+
 fn handle(req: &J) -> J {
+    if req["op"] == "symcc_literal" { return symcc_literal(req); }
     let w = req["w"].as_u64().unwrap_or(64) as u32;
     let x = req["x"].as_str().unwrap_or("0");
     let y = req["y"].as_str().unwrap_or("0");
